@@ -116,8 +116,12 @@ struct DeclaresRelocatable {
 };
 struct DeclaresNothing {};
 
-template <int KIND>
-struct Tracked : std::conditional<KIND == 0 || KIND == 6 || KIND == 8, DeclaresRelocatable, DeclaresNothing>::type {
+// PAD > 0: the same object followed by PAD bytes of padding (elements larger than a cache line)
+template <int PAD> struct PadBytes { unsigned char pad_bytes[PAD]; };
+template <> struct PadBytes<0> {};
+
+template <int KIND, int PAD = 0>
+struct Tracked : std::conditional<KIND == 0 || KIND == 6 || KIND == 8, DeclaresRelocatable, DeclaresNothing>::type, PadBytes<PAD> {
   static const bool kIsTR = KIND == 0 || KIND == 6 || KIND == 8;
   static const bool kNothrowCopyCtor = KIND == 4 || KIND == 5 || KIND == 8;
   static const bool kNothrowCopyAssign = KIND == 6 || KIND == 7;
@@ -128,7 +132,7 @@ struct Tracked : std::conditional<KIND == 0 || KIND == 6 || KIND == 8, DeclaresR
   const Tracked *self;
 
   // ---- helpers
-  static const char *kname() { return KIND == 0 ? "TR" : KIND == 1 ? "NTR" : KIND == 2 ? "NTR_MO" : KIND == 3 ? "NTR_TM" : KIND == 4 ? "NTR_NCTM" : KIND == 5 ? "NTR_NCC" : KIND == 6 ? "TR_NCA" : KIND == 7 ? "NTR_NCA" : "TR_NCC"; }
+  static const char *kname() { return PAD ? (KIND == 0 ? "TR_BIG" : KIND == 1 ? "NTR_BIG" : "X_BIG") : KIND == 0 ? "TR" : KIND == 1 ? "NTR" : KIND == 2 ? "NTR_MO" : KIND == 3 ? "NTR_TM" : KIND == 4 ? "NTR_NCTM" : KIND == 5 ? "NTR_NCC" : KIND == 6 ? "TR_NCA" : KIND == 7 ? "NTR_NCA" : "TR_NCC"; }
   void born(Ev e) {
     if (g_next_serial >= kMaxSerial) harness_fail("serial space exhausted");
     if (g_check_raw_overwrite && !kIsTR) {
@@ -334,10 +338,12 @@ typedef Tracked<5> NTR_NCC;   // noexcept copy constructor, copy assignment may 
 typedef Tracked<6> TR_NCA;    // copy constructor may throw, noexcept copy assignment
 typedef Tracked<7> NTR_NCA;
 typedef Tracked<8> TR_NCC;
+typedef Tracked<0, 72> TR_BIG;   // 96 bytes: larger than a cache line
+typedef Tracked<1, 72> NTR_BIG;
 
 // the harness takes ownership of an object the library created (value returned by pop_back_val, node contents)
-template <int K>
-inline void ledger_adopt(const Tracked<K> &o) {
+template <int K, int P>
+inline void ledger_adopt(const Tracked<K, P> &o) {
   if (o.serial > 0 && o.serial < g_next_serial && g_obj[o.serial].live && !g_obj[o.serial].harness) {
     g_obj[o.serial].harness = 1;
     --g_live_lib;
@@ -345,8 +351,8 @@ inline void ledger_adopt(const Tracked<K> &o) {
   }
 }
 // the harness hands an object over to the library's accounting (it now sits inside a container)
-template <int K>
-inline void ledger_disown(const Tracked<K> &o) {
+template <int K, int P>
+inline void ledger_disown(const Tracked<K, P> &o) {
   if (o.serial > 0 && o.serial < g_next_serial && g_obj[o.serial].live && g_obj[o.serial].harness) {
     g_obj[o.serial].harness = 0;
     ++g_live_lib;
@@ -482,9 +488,9 @@ struct K2 {
 // ---------------------------------------------------------------- uniform access
 template <class E>
 struct EI;
-template <int K>
-struct EI<Tracked<K> > {
-  typedef Tracked<K> E;
+template <int K, int P>
+struct EI<Tracked<K, P> > {
+  typedef Tracked<K, P> E;
   static const bool kTracked = true;
   static const bool kRelocatable = K == 0 || K == 6 || K == 8;  // what the type declares - independent of amc's trait implementation
   static const bool kCopyable = K != 2;
